@@ -276,3 +276,109 @@ void drv_k2_bdiv(int tier, unsigned long seed, const char *extra) {
     }
   }
 }
+
+/* ---- single-limb divisors ---- */
+mp_limb_t mpn_mod_1_1_wrap(mp_srcptr, mp_size_t, mp_limb_t); mp_limb_t mpn_mod_1_2_wrap(mp_srcptr, mp_size_t, mp_limb_t); mp_limb_t mpn_mod_1_3_wrap(mp_srcptr, mp_size_t, mp_limb_t);   /* divrem_euclidean_r_1.c (exported, no header declaration) */
+static mp_limb_t pick_limb(int c) {     /* divisor classes */
+  mp_limb_t d;
+  switch (c % 10) { case 0: d = rnd64(); break; case 1: d = rnd64() >> (1 + rnd_below(62)); break; case 2: d = (mp_limb_t)1 << rnd_below(64); break;
+    case 3: d = ((mp_limb_t)1 << (1 + rnd_below(63))) - 1; break; case 4: d = ONES; break; case 5: d = rnd64() | B63; break;
+    case 6: d = 1 + rnd_below(3); break; case 7: d = B63 + (mp_limb_t)rnd_below(3) - 1; break; case 8: d = ((mp_limb_t)1 << (1 + rnd_below(62))) + 1; break; default: d = ONES - 2 * rnd_below(3); }
+  return d ? d : 1;
+}
+#define IN_N1() do { fn_in_limbs("n", a, n); fn_in_int("nn", n); fn_in_u64("d", d); } while (0)
+static void div1_case(mp_size_t n, int kind, int c, int place) {
+  mp_ptr a = gb_get(0, n, place), q = gb_get(1, n, place), w = gb_get(2, n, place); mp_limb_t d0 = pick_limb(c), d, r; int k, s;
+  rnd_limbs(a, n, kind);
+  if (c % 3 == 1 && n > 1) a[n - 1] = 0;                       /* high limb zero: these kernels take any limb vector */
+  /* mpn_mod_1_k (k = 1..3): db[j] = B^(j+1) mod d for a divisor with (k+1)(d-1) <= B; the wrappers with the same divisor */
+  for (k = 1; k <= 3; k++) {
+    mp_limb_t lim = k == 1 ? B63 + 1 : k == 2 ? ONES / 3 + 1 : B63 / 2 + 1, db[4], rem[2]; unsigned __int128 p = 1; int j;
+    d = d0 > lim ? (c & 1 ? lim - (d0 % 3) : 1 + d0 % lim) : d0;
+    for (j = 0; j <= k; j++) { p = (p << 64) % d; db[j] = (mp_limb_t)p; }
+    if (n >= k + 2) { mp_ptr dbp = gb_get(3, k + 1, place), rp = gb_get(4, 2, place); memcpy(dbp, db, (k + 1) * 8);
+      fn_begin("mpn_mod_1_k"); IN_N1(); fn_in_int("k", k); fn_mid(); gb_fill(rp, 2);
+      if (k == 1) mpn_mod_1_1(rp, a, n, dbp); else if (k == 2) mpn_mod_1_2(rp, a, n, dbp); else mpn_mod_1_3(rp, a, n, dbp);
+      fn_out_limbs("rem", rp, 2); fn_end(); }
+    fn_begin("mpn_mod_1_k_wrap"); IN_N1(); fn_in_int("k", k); fn_mid(); r = k == 1 ? mpn_mod_1_1_wrap(a, n, d) : k == 2 ? mpn_mod_1_2_wrap(a, n, d) : mpn_mod_1_3_wrap(a, n, d); fn_out_u64("r", r); fn_end();
+    (void)rem;
+  }
+  d = d0;
+  fn_begin("mpn_divrem_euclidean_r_1"); IN_N1(); fn_mid(); r = mpn_divrem_euclidean_r_1(a, n, d); fn_out_u64("r", r); fn_end();
+  fn_begin("mpn_divrem_euclidean_qr_1"); IN_N1(); fn_in_int("qxn", 0); fn_mid(); gb_fill(q, n); r = mpn_divrem_euclidean_qr_1(q, 0, a, n, d); fn_out_limbs("q", q, n); fn_out_u64("r", r); fn_end();
+  MPN_COPY(w, a, n); fn_begin("mpn_divrem_euclidean_qr_1"); IN_N1(); fn_in_int("qxn", 0); fn_mid(); r = mpn_divrem_euclidean_qr_1(w, 0, w, n, d); fn_out_limbs("q", w, n); fn_out_u64("r", r); fn_end();     /* qp == xp */
+  { /* precomputed inverse of the normalised divisor */
+    mp_limb_t dn_, dinv; mp_size_t qxn = c % 3 == 2 ? 1 + (mp_size_t)rnd_below(2) : 0; mp_ptr qq = gb_get(5, n + qxn, place);
+    count_leading_zeros(s, d); dn_ = d << s; invert_limb(dinv, dn_);
+    fn_begin("mpn_preinv_divrem_1"); IN_N1(); fn_in_int("qxn", qxn); fn_mid(); gb_fill(qq, n + qxn); r = mpn_preinv_divrem_1(qq, qxn, a, n, d, dinv, s); fn_out_limbs("q", qq, n + qxn); fn_out_u64("r", r); fn_end();
+    MPN_COPY(w, a, n); fn_begin("mpn_preinv_divrem_1"); IN_N1(); fn_in_int("qxn", 0); fn_mid(); r = mpn_preinv_divrem_1(w, 0, w, n, d, dinv, s); fn_out_limbs("q", w, n); fn_out_u64("r", r); fn_end();
+    fn_begin("mpn_preinv_mod_1"); fn_in_limbs("n", a, n); fn_in_int("nn", n); fn_in_u64("d", dn_); fn_mid(); r = mpn_preinv_mod_1(a, n, dn_, dinv); fn_out_u64("r", r); fn_end();
+  }
+  fn_begin("mpn_mod_34lsub1"); fn_in_limbs("n", a, n); fn_in_int("nn", n); fn_mid(); r = mpn_mod_34lsub1(a, n); fn_out_u64("r", r); fn_end();
+  fn_begin("mpn_divexact_byff"); fn_in_limbs("n", a, n); fn_in_int("nn", n); fn_mid(); gb_fill(q, n); r = mpn_divexact_byff(q, a, n); fn_out_limbs("q", q, n); fn_out_u64("ret", r); fn_end();
+  MPN_COPY(w, a, n); fn_begin("mpn_divexact_byff"); fn_in_limbs("n", a, n); fn_in_int("nn", n); fn_mid(); r = mpn_divexact_byff(w, w, n); fn_out_limbs("q", w, n); fn_out_u64("ret", r); fn_end();
+  { static const mp_limb_t fs[] = {1, 3, 5, 15, 17, 51, 85, 255, 257, 641, 65535, 65537, 6700417, 0xffffffffUL, 0x100000001UL, ONES / 3, ONES / 5, ONES}; mp_limb_t f = fs[(c + 5 * kind + n) % 18];
+    fn_begin("mpn_divexact_byfobm1"); fn_in_limbs("n", a, n); fn_in_int("nn", n); fn_in_u64("f", f); fn_mid(); gb_fill(q, n); r = mpn_divexact_byfobm1(q, a, n, f, ONES / f); fn_out_limbs("q", q, n); fn_out_u64("ret", r); fn_end(); }
+  /* odd divisors: Hensel division and the exact-division style remainder */
+  d = d0 | 1;
+  { mp_limb_t cin = c % 4 == 0 ? 0 : c % 4 == 1 ? rnd64() % d : c % 4 == 2 ? d - 1 : (c & 8 ? d : rnd64());
+    fn_begin("mpn_modexact_1c_odd"); IN_N1(); fn_in_u64("c", cin); fn_mid(); r = mpn_modexact_1c_odd(a, n, d, cin); fn_out_u64("r", r); fn_end(); }
+  fn_begin("mpn_divrem_hensel_qr_1"); IN_N1(); fn_mid(); gb_fill(q, n); r = mpn_divrem_hensel_qr_1(q, a, n, d); fn_out_limbs("q", q, n); fn_out_u64("ret", r); fn_end();
+  fn_begin("mpn_divrem_hensel_qr_1_1"); IN_N1(); fn_mid(); gb_fill(q, n); r = mpn_divrem_hensel_qr_1_1(q, a, n, d); fn_out_limbs("q", q, n); fn_out_u64("ret", r); fn_end();
+  if (n >= 2) { fn_begin("mpn_divrem_hensel_qr_1_2"); IN_N1(); fn_mid(); gb_fill(q, n); r = mpn_divrem_hensel_qr_1_2(q, a, n, d); fn_out_limbs("q", q, n); fn_out_u64("ret", r); fn_end();
+    MPN_COPY(w, a, n); fn_begin("mpn_divrem_hensel_qr_1_2"); IN_N1(); fn_mid(); r = mpn_divrem_hensel_qr_1_2(w, w, n, d); fn_out_limbs("q", w, n); fn_out_u64("ret", r); fn_end(); }
+  MPN_COPY(w, a, n); fn_begin("mpn_divrem_hensel_qr_1"); IN_N1(); fn_mid(); r = mpn_divrem_hensel_qr_1(w, w, n, d); fn_out_limbs("q", w, n); fn_out_u64("ret", r); fn_end();
+  fn_begin("mpn_divrem_hensel_r_1"); IN_N1(); fn_mid(); r = mpn_divrem_hensel_r_1(a, n, d); fn_out_u64("ret", r); fn_end();
+  s = c % 5 == 0 ? 0 : c % 5 == 1 ? 63 : (int)rnd_below(64);
+  fn_begin("mpn_divrem_hensel_rsh_qr_1"); IN_N1(); fn_in_int("s", s); fn_mid(); gb_fill(q, n); r = mpn_divrem_hensel_rsh_qr_1(q, a, n, d, s); fn_out_limbs("q", q, n); fn_out_u64("ret", r); fn_end();
+  { mp_limb_t m; modlimb_invert(m, d); MPN_COPY(w, a, n);
+    fn_begin("mpn_divrem_hensel_rsh_qr_1_preinv"); IN_N1(); fn_in_int("s", s); fn_mid(); r = mpn_divrem_hensel_rsh_qr_1_preinv(w, w, n, d, m, s); fn_out_limbs("q", w, n); fn_out_u64("ret", r); fn_end(); }
+  { mp_limb_t cin = c % 3 == 0 ? 0 : c % 3 == 1 ? rnd64() % d : d - 1;        /* carry-in below the divisor (its caller passes a remainder) */
+    fn_begin("mpn_rsh_divrem_hensel_qr_1"); IN_N1(); fn_in_int("s", s); fn_in_u64("cin", cin); fn_mid(); gb_fill(q, n); r = mpn_rsh_divrem_hensel_qr_1(q, a, n, d, s, cin); fn_out_limbs("q", q, n); fn_out_u64("ret", r); fn_end();
+    fn_begin("mpn_rsh_divrem_hensel_qr_1_1"); IN_N1(); fn_in_int("s", s); fn_in_u64("cin", cin); fn_mid(); gb_fill(q, n); r = mpn_rsh_divrem_hensel_qr_1_1(q, a, n, d, s, cin); fn_out_limbs("q", q, n); fn_out_u64("ret", r); fn_end();
+    if (n >= 2) { fn_begin("mpn_rsh_divrem_hensel_qr_1_2"); IN_N1(); fn_in_int("s", s); fn_in_u64("cin", cin); fn_mid(); gb_fill(q, n); r = mpn_rsh_divrem_hensel_qr_1_2(q, a, n, d, s, cin); fn_out_limbs("q", q, n); fn_out_u64("ret", r); fn_end(); }
+    MPN_COPY(w, a, n); fn_begin("mpn_rsh_divrem_hensel_qr_1"); IN_N1(); fn_in_int("s", s); fn_in_u64("cin", cin); fn_mid(); r = mpn_rsh_divrem_hensel_qr_1(w, w, n, d, s, cin); fn_out_limbs("q", w, n); fn_out_u64("ret", r); fn_end();
+    /* the composition its caller mpn_divrem_1 relies on: cin = X mod (d << s') makes the division exact */
+    if (d0 <= B63 / 2 + 1) { mp_limb_t de = d0, dodd; int tz; count_trailing_zeros(tz, de); dodd = de >> tz; cin = mpn_divrem_euclidean_r_1(a, n, de);
+      fn_begin("mpn_rsh_divrem_hensel_qr_1"); fn_in_limbs("n", a, n); fn_in_int("nn", n); fn_in_u64("d", dodd); fn_in_int("s", tz); fn_in_u64("cin", cin); fn_mid(); gb_fill(q, n); r = mpn_rsh_divrem_hensel_qr_1(q, a, n, dodd, tz, cin); fn_out_limbs("q", q, n); fn_out_u64("ret", r); fn_end(); } }
+  /* two-limb normalised divisor */
+  if (n >= 2) { mp_ptr dp = gb_get(3, 2, place), qq = gb_get(5, n - 2, place); mp_limb_t qh; mk_divisor(dp, 2, c); if (c % 4 == 3) MPN_COPY(a + n - 2, dp, 2);
+    MPN_COPY(w, a, n); fn_begin("mpn_divrem_euclidean_qr_2"); fn_in_limbs("n", a, n); fn_in_int("nn", n); fn_in_limbs("d", dp, 2); fn_mid(); gb_fill(qq, n - 2); qh = mpn_divrem_euclidean_qr_2(qq, w, n, dp);
+    fn_out_limbs("q", qq, n - 2); fn_out_u64("qh", qh); fn_out_limbs("r", w, 2); fn_end(); }
+}
+void drv_k2_div1(int tier, unsigned long seed, const char *extra) {
+  shard_t sh = shard_parse(extra); long x = 0; mp_size_t n; int kk, cc;
+  mp_size_t maxn = sh.pure ? 3 : (tier ? 80 : 42);
+  for (n = 1; n <= maxn; n++) for (kk = 0; kk < (sh.pure ? 1 : (tier ? NKINDS : 3)); kk++) {
+    x++; if (!MINE(sh, x)) continue;
+    rec_reset("k2_div1", x, seed);
+    for (cc = 0; cc < (sh.pure ? 2 : (tier ? 10 : 3)); cc++) div1_case(n, (int)((n + 2 * kk) % NKINDS), (int)((x + 3 * cc) % 10) + (cc ? 8 * (int)(rnd64() & 1) : 0), (cc + kk) & 1);
+  }
+}
+
+/* mpn_divisible_p: both operands normalised (asize = 0 allowed); multiples, multiples +-1, low zero limbs and bits on either operand, the
+   two-limb divisor that shifts down to one limb, sizes on both sides of asize = dsize */
+void drv_k2_divis(int tier, unsigned long seed, const char *extra) {
+  shard_t sh = shard_parse(extra); long x = 0; int i, j, t;
+  static const int dss[] = {1, 2, 3, 4, 7, 12, 30, 52, 70}, qss[] = {-2, -1, 0, 1, 2, 5, 33};
+  for (i = 0; i < (sh.pure ? 2 : (tier ? 9 : 7)); i++) for (j = 0; j < (sh.pure ? 4 : 7); j++) {
+    mp_size_t dn = dss[i], qn = qss[j];
+    x++; if (!MINE(sh, x)) continue;
+    rec_reset("k2_divis", x, seed);
+    for (t = 0; t < (sh.pure ? 4 : 14); t++) {
+      mp_size_t an, z; mp_ptr d = gb_get(1, dn, t & 1), a, pr = gb_get(3, dn + (qn > 0 ? qn : 0) + 1, 1), qq = gb_get(4, qn > 0 ? qn : 1, 1); int ret;
+      rnd_limbs(d, dn, (int)((x + t) % NKINDS));
+      if (t % 7 == 1) d[0] |= 1; if (t % 7 == 2) d[0] &= ~(mp_limb_t)0 << (1 + rnd_below(63)); if (t % 7 == 3 && dn > 1) MPN_ZERO(d, 1 + (mp_size_t)rnd_below(dn - 1));
+      if (!d[dn - 1]) d[dn - 1] = 1 + (rnd64() >> rnd_below(64));
+      if (t % 7 == 4 && dn == 2) { int tw = 1 + (int)rnd_below(62); d[0] = (rnd64() | 1) << tw; d[1] = 1 + rnd_below(((mp_limb_t)1 << tw) - 1); }     /* dsecond <= low-zeros mask */
+      if (qn <= 0) { an = dn + qn > 0 ? dn + qn : 0; if (t % 3 == 0) an = 0;                 /* a shorter than d, equal size, or zero */
+        if (an) { rnd_limbs(pr, an, (int)((x / 2 + t) % NKINDS)); if (qn == 0 && t % 3 == 1) MPN_COPY(pr, d, dn); if (qn == 0 && t % 3 == 2 && t > 6) (void)mpn_lshift(pr, d, dn, 1); if (!pr[an - 1]) pr[an - 1] = 1; } }
+      else { rnd_limbs(qq, qn, (int)((x / 3 + t) % NKINDS)); if (!qq[qn - 1]) qq[qn - 1] = 1;
+        if (qn >= dn) mpn_mul(pr, qq, qn, d, dn); else mpn_mul(pr, d, dn, qq, qn); an = dn + qn; if (!pr[an - 1]) an--;
+        if (t >= 7) { if (t % 3 == 0) mpn_add_1(pr, pr, an, 1); else if (t % 3 == 1) mpn_sub_1(pr, pr, an, 1); else pr[rnd_below(an)] ^= (mp_limb_t)1 << rnd_below(64); MPN_NORMALIZE(pr, an); }
+        if (t == 5 && an > 1) { z = 1 + (mp_size_t)rnd_below(an - 1); MPN_ZERO(pr, z); } }
+      a = gb_get(0, an, t & 1); if (an) MPN_COPY(a, pr, an);
+      fn_begin("mpn_divisible_p"); fn_in_limbs("a", a, an); fn_in_int("an", an); fn_in_limbs("d", d, dn); fn_in_int("dn", dn); fn_mid(); ret = mpn_divisible_p(a, an, d, dn); fn_out_int("ret", ret); fn_end();
+    }
+  }
+}
